@@ -113,6 +113,16 @@ func TestWorker(t *testing.T) {
 		workerMerge(t)
 	case "trace":
 		workerTrace(t, prop, tier)
+	case "runseed":
+		// execute one seed (crash reproduction): the process dying is the observation
+		seed, _ := strconv.ParseUint(os.Getenv("VERIF_RUNSEED"), 10, 64)
+		gen, sched := randomSources(seed)
+		res := RunOne(t, prop, tier, seed, gen, sched, true)
+		out := map[string]any{"property": prop, "harness_error": res.HarnessError, "inconclusive": res.Inconclusive, "events": res.Events}
+		if res.Violation != nil {
+			out["class"], out["message"] = res.Violation.Class, res.Violation.Msg
+		}
+		writeJSON(os.Getenv("VERIF_OUT"), out)
 	default:
 		fmt.Fprintln(os.Stderr, "unknown VERIF_MODE", mode)
 		os.Exit(2)
@@ -146,11 +156,19 @@ func workerSearch(t *testing.T, prop, tier string) {
 	hashes := map[uint64]struct{}{}
 	pairs := map[string]struct{}{}
 	const hashCap = 600000
+	var curf *os.File
+	if outPath != "" {
+		curf, _ = os.Create(outPath + ".cur")
+	}
 	for i := widx; out.Runs < maxRuns; i += nw {
 		if out.Runs%16 == 0 && time.Since(start) > budget {
 			break
 		}
 		seed := runSeed(base, prop, i)
+		if curf != nil {
+			// so that the supervisor knows which run was executing if the process dies
+			curf.WriteAt([]byte(fmt.Sprintf("%020d", seed)), 0)
+		}
 		gen, sched := randomSources(seed)
 		res := RunOne(t, prop, tier, seed, gen, sched, false)
 		out.Runs++
